@@ -41,11 +41,15 @@ def mk_fn(sig, rec, ret='tuple'):
         params.append(nm if i < n - k else '%s=%d' % (nm, 100 + i))
     if sig['varargs']:
         params.append('*args')
+    if sig.get('kwonly'):
+        if not sig['varargs']:
+            params.append('*')
+        params.append('ko=200')          # a declared keyword-only parameter
     if sig['varkw']:
         params.append('**kwargs')
     bound = ', '.join(NAMES[:n]) + (',' if n else '')
     src = 'def f(%s):\n' % ', '.join(params)
-    src += '    vals = (%s)%s\n' % (bound, ' + tuple(args)' if sig['varargs'] else '')
+    src += '    vals = (%s)%s%s\n' % (bound, ' + tuple(args)' if sig['varargs'] else '', ' + ("ko=", ko)' if sig.get('kwonly') else '')
     src += '    kw = %s\n' % ('tuple(sorted(kwargs.items()))' if sig['varkw'] else '()')
     src += '    _rec.log.append((vals, kw))\n'
     src += '    _all = list(vals) + [v for _, v in kw]\n'
@@ -65,6 +69,8 @@ def all_sigs():
             for va in (False, True):
                 for vk in (False, True):
                     out.append({'npos': n, 'ndef': k, 'varargs': va, 'varkw': vk})
+                    if 1 <= n <= 2:
+                        out.append({'npos': n, 'ndef': k, 'varargs': va, 'varkw': vk, 'kwonly': True})
     return out
 
 
@@ -92,6 +98,8 @@ def valid_calls(sig, rng, cap=30):
         vals = iter(range(1, 50))
         a = [next(vals) for _ in range(npos + ea)]
         kw = {nm: next(vals) for nm in kwn}
+        if sig.get('kwonly') and (len(out) % 2 == 0):
+            kw['ko'] = next(vals)          # the keyword-only parameter is passed in every other call
         for j in range(ek):
             kw[['zz', 'yy'][j]] = next(vals)
         out.append({'a': a, 'k': kw})
@@ -151,18 +159,31 @@ def run_sig(case, ctx):
     # ---- getcallargs / call_with_callargs against inspect
     st, ca = ctx.call(getcallargs, f, *a, **k)
     ref = inspect.getcallargs(f, *a, **k)
-    ctx.check('getcallargs_vs_inspect', st == 'ok' and dict(ca) == ref, lambda: 'getcallargs(f%s, *%r, **%r) = %s %r, inspect says %r' % (inspect.signature(f), a, k, st, ca, ref))
+    mech_ko = None
+    if sig.get('kwonly') and st == 'ok' and dict(ca) != ref:
+        # known finding: the helpers only know spec.args - a passed keyword-only argument is filed under **kwargs (or simply added) and the parameter keeps its default
+        ca_ = dict(ca); ref_ = dict(ref)
+        vk_ = 'kwargs' if sig['varkw'] else None
+        if vk_:
+            ca_[vk_] = {x: v for x, v in ca_.get(vk_, {}).items() if x != 'ko'}
+        ca_.pop('ko', None); ref_.pop('ko', None)
+        if ca_ == ref_:
+            mech_ko = 'keyword-only-parameters-unknown-to-getcallargs-and-call_with_callargs'
+    ctx.check('getcallargs_vs_inspect', st == 'ok' and dict(ca) == ref, mech=mech_ko, detail=lambda: 'getcallargs(f%s, *%r, **%r) = %s %r, inspect says %r' % (inspect.signature(f), a, k, st, ca, ref))
     if st == 'ok':
         st2, r2 = ctx.call(call_with_callargs, f, ca)
-        ctx.check('call_with_callargs', st2 == 'ok' and r2 == direct, lambda: 'call_with_callargs(f%s, %r) = %s %r, f(*a,**k) = %r' % (inspect.signature(f), ca, st2, r2, direct))
+        mech_cw = None
+        if sig.get('kwonly') and st2 == 'ok' and r2 != direct and r2 == f(*a, **{x: v for x, v in k.items() if x != 'ko'}):
+            mech_cw = 'keyword-only-parameters-unknown-to-getcallargs-and-call_with_callargs'     # the keyword-only argument is not passed on: f ran with its default
+        ctx.check('call_with_callargs', st2 == 'ok' and r2 == direct, mech=mech_cw, detail=lambda: 'call_with_callargs(f%s, %r) = %s %r, f(*a,**k) = %r' % (inspect.signature(f), ca, st2, r2, direct))
         # the caller keeps its callargs dict: it still agrees with inspect and can be used again
         st3, r3 = ctx.call(call_with_callargs, f, ca)
-        ctx.check('call_with_callargs', dict(ca) == ref and st3 == 'ok' and r3 == direct, lambda: 'after call_with_callargs the callargs dict is %r (inspect: %r); second use = %s %r' % (ca, ref, st3, r3))
+        ctx.check('call_with_callargs', dict(ca) == ref and st3 == 'ok' and r3 == direct, mech=mech_cw or mech_ko, detail=lambda: 'after call_with_callargs the callargs dict is %r (inspect: %r); second use = %s %r' % (ca, ref, st3, r3))
     # ---- transparency through the stack
     w = wrap(f, stack)
     has_ks = 'kwargs_support' in stack
     stw, got = ctx.call(w, *a, **k)
-    extra_kw = [x for x in k if x not in NAMES[:sig['npos']]]
+    extra_kw = [x for x in k if x not in NAMES[:sig['npos']] and not (x == 'ko' and sig.get('kwonly'))]
     if not (stw == 'ok' and got == direct and typed(got) == typed(direct)):
         mech = None
         if has_ks and sig['varkw'] and extra_kw and stw == 'ok' and got == f(*a, **{x: v for x, v in k.items() if x not in extra_kw}):
@@ -174,6 +195,11 @@ def run_sig(case, ctx):
     # ---- argspec forwarded
     sp = ctx.call(getargspec, w)
     ctx.check('argspec_forwarded', sp[0] == 'ok' and spec_tuple(sp[1]) == spec_tuple(inspect.getfullargspec(f)), lambda: 'getargspec(%s(f%s)) = %r' % ('('.join(stack), inspect.signature(f), sp[1]))
+    if sp[0] == 'ok':
+        from pyg_base._inspect import argspec_add
+        ctx.call(argspec_add, sp[1], zz9=0)           # somebody derives a wider spec from the reported one
+        sp2 = ctx.call(getargspec, w)
+        ctx.check('argspec_forwarded', sp2[0] == 'ok' and spec_tuple(sp2[1]) == spec_tuple(inspect.getfullargspec(f)), lambda: 'getargspec(%s(f%s)) after argspec_add(spec, zz9=0) = %r' % ('('.join(stack), inspect.signature(f), sp2[1]))
     # ---- no double wrapping: W(W(f)) == W(f); W(X(W(f))) == W(X(f))
     if stack:
         W = stack[0]
@@ -296,7 +322,24 @@ def run_cache(case, ctx):
     ctx.cls('cache:ret=' + case['ret'])
 
 
+def run_exc(case, ctx):
+    """pd2np built with exc=<name>: on non-pandas input f still gets, and returns, exactly what it was given under that name"""
+    import numpy as np
+    import pandas as pd
+    from pyg_base import pd2np
+    f = lambda a, idx=None, other=None: (a, idx, other)
+    w = pd2np(f, exc=case['exc']) if case['form'] == 'direct' else pd2np(exc=case['exc'])(f)
+    idx = {'int_array': np.array([0, 2, 1]), 'list': [0, 1], 'int_series': pd.Series([1, 2, 3]), 'nested': {'i': np.array([1, 0])}, 'int': 3}[case['idx']]
+    first = {'float': 2.5, 'list': [1.5, 2.5], 'farray': np.array([1.0, 2.0]), 'str': 'x'}[case['first']]
+    st, got = ctx.call(w, first, idx=idx, other=4.5)
+    ok = st == 'ok' and isinstance(got, tuple) and len(got) == 3 and got[1] is idx and got[2] == 4.5
+    ctx.check('wrapped_equals_direct', ok, lambda: 'pd2np(f, exc=%r)(%r, idx=<%s>) handed f %r for idx (the very object given is expected)' % (case['exc'], first, case['idx'], got[1] if st == 'ok' and isinstance(got, tuple) else got))
+    ctx.cls('pd2np_exc')
+
+
 def run_case(case, ctx):
+    if case['kind'] == 'exc':
+        return run_exc(case, ctx)
     return run_cache(case, ctx) if case['kind'] == 'cache' else run_sig(case, ctx)
 
 
@@ -351,6 +394,13 @@ def run(spec, ctx):
                 ctx.run_case(case, run_case)
                 if ctx.full():
                     return
+    for exc in ('idx', ['idx'], ['idx', 'other']):
+        for form in ('direct', 'factory'):
+            for idx in ('int_array', 'list', 'int_series', 'nested', 'int'):
+                for first in ('float', 'list', 'farray', 'str'):
+                    case = {'kind': 'exc', 'exc': exc, 'form': form, 'idx': idx, 'first': first}
+                    ctx.case(case)
+                    ctx.run_case(case, run_case)
     for i in range(spec['ncache']):
         case = gen_cache_case(rng)
         ctx.case(case)
